@@ -18,6 +18,10 @@ import (
 type sub struct {
 	Path string // "/"-separated member names from the event root, e.g. "content/users"
 	Val  string // raw JSON text; absent deletes the member
+	// Dup: the member is not replaced but sent twice - 1: the extra copy (Val) precedes the original, 2: it follows it.
+	// No honest serialiser emits that, any peer can; readers that take the first and readers that take the last copy
+	// then see different events.
+	Dup int `json:",omitempty"`
 }
 
 const absent = "\x00ABSENT"
@@ -39,6 +43,18 @@ func emit(out []byte, v *refjson.Value, path string, subs []sub) []byte {
 			for _, s := range subs {
 				if s.Path == cp {
 					seen[cp] = true
+					if s.Dup != 0 {
+						if s.Dup == 1 {
+							if !first {
+								out = append(out, ',')
+							}
+							first = false
+							out = refjson.AppendString(out, m.Key)
+							out = append(out, ':')
+							out = append(out, s.Val...)
+						}
+						break // the original follows below (and, for Dup == 2, the copy after it)
+					}
 					done = true
 					if s.Val == absent {
 						break
@@ -63,6 +79,14 @@ func emit(out []byte, v *refjson.Value, path string, subs []sub) []byte {
 			out = refjson.AppendString(out, m.Key)
 			out = append(out, ':')
 			out = emit(out, m.Val, cp, subs)
+			for _, s := range subs {
+				if s.Path == cp && s.Dup == 2 {
+					out = append(out, ',')
+					out = refjson.AppendString(out, m.Key)
+					out = append(out, ':')
+					out = append(out, s.Val...)
+				}
+			}
 		}
 		for _, s := range subs {
 			i := strings.LastIndexByte(s.Path, '/')
